@@ -16,7 +16,7 @@ TRUSTED = ['Gen/Ident.v, Gen/Classes.v regenerated from the source on every run'
            'Core/Model.v: hand-written model (relation equations, span computation of CircuitCompositeOperation.duration), tied by this correspondence run']
 ASSUMPTIONS = ['binary64 arithmetic exact on generated durations; times compared as integers in ticks of 1/8']
 RULE = ('random build programs as for C01, with a raised share of JOINED_START / JOINED_END relations and long/short duration mixes so that the last-ending operation '
-        'is often not a relation leaf and operations start before the first-added ones; non-trivial: >= 2 leaves and (nested or explicit relation or shared qubit) Plus ~13% structured shapes (coregen.gen_structured: parallel first blocks of unequal length under two levels of repetition with a follower of the first, a repeated block starting with a plain operation and containing a repeated block, two relation branches of unequal depth and length meeting through a barrier, a long chain beside a short operation followed by a repeated block, an early-starting operation in a doubly nested block).')
+        'is often not a relation leaf and operations start before the first-added ones; non-trivial: >= 2 leaves and (nested or explicit relation or shared qubit) Plus ~13% structured shapes (coregen.gen_structured: parallel first blocks of unequal length under two levels of repetition with a follower of the first, a repeated block starting with a plain operation and containing a repeated block, two relation branches of unequal depth and length meeting through a barrier, a long chain beside a short operation followed by a repeated block, an early-starting operation in a doubly nested block). Plus observations made AFTER the settings changed (coregen.gen_after_change): the circuit is built, unrolled, listed and every duration read; then the global durations are rotated (half of the cases) and the registry durations permuted (a third of the cases near 10^6 moving by a few units; a fifth set for the FIRST time), and duration, sub-circuit durations and listing are read again; fixed cases: a repeated body starting with a nested block beside a registry-timed wait whose change flips which ends last, and a first-time set key with a follower.')
 
 
 def gen_cases(rng, tier):
@@ -30,10 +30,13 @@ def gen_cases(rng, tier):
         c = coregen.gen_structured(rng)
         c['obs'] = ['plain', 'plain_dur_first', 'unrolled']
         cases.append(c)
+    cases += coregen.gen_after_change(rng, 40 if tier == 'quick' else 600, lambda: gen_case(rng, maxlen=rng.choice([3, 6, 10]), p_rel=0.6))
     return cases
 
 
 def to_coq(c, o):
+    if c.get('obs') == ['after_change']:
+        return c_case(*coregen.after_change_as(c, o, 'unrolled_dur_first'))
     return c_case(c, o)
 
 
@@ -42,7 +45,7 @@ def nontrivial(c, o):
 
 
 def kind(c):
-    return ('nested' if coregen.has_sub(c['prog']) else 'flat') + ('+rel' if coregen.has_rel(c['prog']) else '')
+    return ('after-change:' if c.get('obs') == ['after_change'] else '') + ('nested' if coregen.has_sub(c['prog']) else 'flat') + ('+rel' if coregen.has_rel(c['prog']) else '')
 
 
 def sample(c, o):
